@@ -3380,6 +3380,215 @@ def r16_validated_text_is_stored_text(run):
     if n_ob == 0:
         raise AnchorError('%s and %s share no field-expression group that is both checked and stored' % (T.validator.qual, T.node_init.qual))
 
+# ---------------------------------------------------------------------------
+# R17 the route payload of a node is (re)assigned as a group
+# ---------------------------------------------------------------------------
+
+def _payload_fields(p) -> Tuple[Func, List[str]]:
+    """The node attributes a lookup result is made of: instance attributes of
+    CompiledRouterNode (bound as `self.X` by its constructor) that find() reads
+    in a return value."""
+    find = p.func(ROUTER + '.find')
+    init = p.constructor(p.cls(NODE))
+    if init is None:
+        raise AnchorError('%s has no constructor' % NODE)
+    own = set()
+    for n in walk_self(init.node):
+        if isinstance(n, ast.Attribute) and isinstance(n.ctx, ast.Store) and isinstance(n.value, ast.Name) and n.value.id == 'self':
+            own.add(n.attr)
+    fields: List[str] = []
+    for n in walk_self(find.node):
+        if isinstance(n, ast.Return) and n.value is not None:
+            for x in ast.walk(n.value):
+                if isinstance(x, ast.Attribute) and isinstance(x.ctx, ast.Load) and isinstance(x.value, ast.Name) \
+                        and x.attr in own and x.attr not in fields:
+                    fields.append(x.attr)
+    if len(fields) < 2:
+        raise AnchorError('%s returns fewer than two attributes of the matched %s' % (find.qual, NODE.rsplit('.', 1)[-1]))
+    return find, fields
+
+
+_PURE_TEST = (ast.Name, ast.Attribute, ast.Constant, ast.Compare, ast.BoolOp, ast.UnaryOp, ast.BinOp, ast.expr_context, ast.cmpop,
+              ast.boolop, ast.unaryop, ast.operator)
+
+
+def _test_fact(n) -> Optional[Tuple[str, frozenset]]:
+    """(text, names) of a branch test made of names, attribute reads, constants, comparisons and `len(..)` only --
+    two tests with the same text have the same outcome while none of their names is rebound or written through."""
+    if n.kind != 'test' or n.ast is None:
+        return None
+    names = set()
+    for x in ast.walk(n.ast):
+        if isinstance(x, ast.Call):
+            if not (isinstance(x.func, ast.Name) and x.func.id == 'len' and len(x.args) == 1 and not x.keywords):
+                return None
+            continue
+        if not isinstance(x, _PURE_TEST):
+            return None
+        if isinstance(x, ast.Name):
+            names.add(x.id)
+    names.discard('len')
+    return (' '.join(ast.unparse(n.ast).split()), frozenset(names))
+
+
+def _touched_names(n) -> Set[str]:
+    """Names a CFG node may change the meaning of: rebound, stored through, or handed to a call."""
+    out = set(H.node_defs(n))
+    if n.kind in ('stmt', 'test', 'iter', 'with'):
+        for x in n.walk():
+            if isinstance(x, (ast.Attribute, ast.Subscript)) and isinstance(x.ctx, (ast.Store, ast.Del)):
+                b = x
+                while isinstance(b, (ast.Attribute, ast.Subscript)):
+                    b = b.value
+                if isinstance(b, ast.Name):
+                    out.add(b.id)
+            elif isinstance(x, ast.Call) and not (isinstance(x.func, ast.Name) and x.func.id == 'len'):
+                for y in ast.walk(x):
+                    if isinstance(y, ast.Name):
+                        out.add(y.id)
+    return out
+
+
+def _group_path(cfg, starts, through: int, goals: Set[int], avoid: Set[int], avoid_edges: Set[tuple]) -> Optional[List[int]]:
+    """A normal path start -> `through` -> goal that avoids `avoid` / `avoid_edges` and never takes two different
+    outcomes of the same side-effect-free test (correlated `if leaf: ... if leaf: ...` are one decision)."""
+    from collections import deque
+    facts_of = {n.id: _test_fact(n) for n in cfg.live_nodes()}
+    touched = {n.id: _touched_names(n) for n in cfg.live_nodes()}
+    prev: Dict[tuple, Optional[tuple]] = {}
+    dq = deque()
+    for s_ in starts:
+        if s_ in avoid:
+            continue
+        st = (s_, s_ == through, frozenset())
+        if st not in prev:
+            prev[st] = None
+            dq.append(st)
+    while dq:
+        st = dq.popleft()
+        x, passed, facts = st
+        if passed and x in goals and prev[st] is not None:
+            out = []
+            while st is not None:
+                out.append(st[0])
+                st = prev[st]
+            return list(reversed(out))
+        t = touched.get(x, set())
+        if t:
+            facts = frozenset(f_ for f_ in facts if not (f_[1] & t))
+        for (y, l) in cfg.succ[x]:
+            if not flow.no_exc(x, y, l) or y in avoid or (x, y, l) in avoid_edges:
+                continue
+            nf = facts
+            fx = facts_of.get(x)
+            if fx is not None and l in ('T', 'F'):
+                if (fx[0], fx[1], 'F' if l == 'T' else 'T') in facts:
+                    continue  # the same test was decided the other way earlier on this path
+                nf = facts | {(fx[0], fx[1], l)}
+            ns = (y, passed or y == through, nf)
+            if ns not in prev:
+                prev[ns] = st
+                dq.append(ns)
+    return None
+
+
+def _already_equal_edges(cfg, recv: str, fld: str, store_nodes: Set[int]) -> Set[tuple]:
+    """Edges on which `recv.fld` is known to hold already what the guarded store would write: the equal outcome of
+    `V is recv.fld` / `V == recv.fld` / `is not` / `!=` where every store of the field writes V ("store only when it changes")."""
+    vals = set()
+    for s_ in store_nodes:
+        a = cfg.node(s_).ast
+        if isinstance(a, ast.Assign) and len(a.targets) == 1 and isinstance(a.targets[0], ast.Attribute):
+            vals.add(ast.unparse(a.value))
+        else:
+            return set()
+    if len(vals) != 1:
+        return set()
+    v = next(iter(vals))
+    fieldtxt = '%s.%s' % (recv, fld)
+    out = set()
+    for n in cfg.live_nodes():
+        if n.kind == 'test' and isinstance(n.ast, ast.Compare) and len(n.ast.ops) == 1:
+            sides = {ast.unparse(n.ast.left), ast.unparse(n.ast.comparators[0])}
+            if sides == {v, fieldtxt} and v != fieldtxt:
+                eq = 'T' if isinstance(n.ast.ops[0], (ast.Is, ast.Eq)) else 'F' if isinstance(n.ast.ops[0], (ast.IsNot, ast.NotEq)) else None
+                if eq:
+                    out.update((n.id, y, l) for (y, l) in cfg.succ[n.id] if l == eq)
+    return out
+
+
+def r17_payload_group(run):
+    """find() answers with several attributes of the matched node (the fields
+    are read off find()'s return value, not assumed).  They describe ONE route,
+    so wherever add_route's helpers store one of them on a node they store all
+    of them on that node: on every normal path through a store `n.F = ...`
+    (from the function entry or the last rebinding of `n` to the next rebinding
+    of `n` or the function exit) there is a store `n.G = ...` for every other
+    payload field G.  Only the presence of the sibling stores is decided, not
+    the stored values.  Two tests with the same side-effect-free text are one
+    decision (`if leaf: .. if leaf: ..`); "store only when it differs"
+    (`if resource is not n.resource: n.resource = resource`) counts as stored.
+    W: add_route('/a/b', R1); add_route('/a', R2): find('/a') returns R2's
+    resource and responders with uri_template None (req.uri_template is None)."""
+    p = run.project
+    add = p.func(ROUTER + '.add_route')
+    find, fields = _payload_fields(p)
+    run.use(find)
+    run.sample({'payload fields read by find()': fields})
+    n_ob = 0
+    for g in [add] + [add.nested[k] for k in sorted(add.nested)]:
+        cfg = cfg_of(g, p)
+        stores: Dict[Tuple[str, str], List[int]] = {}
+        for n in cfg.live_nodes():
+            if n.kind != 'stmt' or not isinstance(n.ast, (ast.Assign, ast.AnnAssign, ast.AugAssign)):
+                continue
+            a = n.ast
+            if isinstance(a, ast.AnnAssign) and a.value is None:
+                continue
+            targets = a.targets if isinstance(a, ast.Assign) else [a.target]
+            flat: List[ast.AST] = []
+            for t in targets:
+                flat.extend(t.elts if isinstance(t, (ast.Tuple, ast.List)) else [t])
+            for t in flat:
+                if isinstance(t, ast.Attribute) and t.attr in fields:
+                    if not isinstance(t.value, ast.Name):
+                        raise UnknownIdiom('%s: payload field stored on a receiver that is not a plain local: %s' % (g.qual, short(t, 80)))
+                    if t.value.id in ('self', 'cls'):
+                        continue
+                    stores.setdefault((t.value.id, t.attr), []).append(n.id)
+        if not stores:
+            continue
+        run.use_cfg(cfg)
+        exits = {cfg.exit}
+        for (recv, fld), sites in sorted(stores.items()):
+            rebinds = {n.id for n in cfg.live_nodes() if recv in H.node_defs(n)}
+            for s_ in sites:
+                sn = cfg.node(s_)
+                missing: List[str] = []
+                wit = None
+                for other in fields:
+                    if other == fld:
+                        continue
+                    avoid = set(stores.get((recv, other), []))
+                    if s_ in avoid:
+                        continue  # one statement stores both
+                    path = _group_path(cfg, [cfg.entry] + sorted(rebinds), s_, exits | rebinds, avoid,
+                                       _already_equal_edges(cfg, recv, other, avoid))
+                    if path is None:
+                        continue
+                    missing.append(other)
+                    if wit is None:
+                        wit = flow.describe_path(cfg, path)
+                n_ob += 1
+                run.check(not missing, '%s: a path that stores the payload field %s of node `%s` stores every other field find() answers with '
+                          '(%s) on the same node' % (g.name, fld, recv, ', '.join(f_ for f_ in fields if f_ != fld)), g,
+                          '%s ; never on this path: %s' % (short(sn.ast, 100), ', '.join('%s.%s' % (recv, m) for m in missing)) if missing
+                          else sn.ast, where='%s:%s' % (g.file, sn.lineno), witness=wit,
+                          runtime_witness="add_route('/a/b', R1); add_route('/a', R2): find('/a') answers R2's resource with the "
+                                          'uri_template / responders the node had before (None for an interior node)')
+    if n_ob == 0:
+        raise AnchorError('no helper of add_route stores a payload field (%s) on a node' % ', '.join(fields))
+
 
 def check(run):
     run.assume('a rejection is an exception in the E5 summary of add_route (explicit raises, closed over resolved callees); '
@@ -3415,3 +3624,4 @@ def check(run):
     run.rule('R16', r16_validated_text_is_stored_text, 'the text of a field-expression group that the validator accepts is the text CompiledRouterNode stores', floor=3)
     run.rule('R15', r15_multi_segment_flag, 'the multi-segment decision is the CONSUME_MULTIPLE_SEGMENTS attribute of the registered converter, whatever its type', floor=2)
     run.rule('R9', r9_rendered_text, 'template-derived text reaches a line of the generated source only validated, converted (!r), or as int / generated name', floor=28)
+    run.rule('R17', r17_payload_group, 'the attributes of a node that find() answers with are stored together on every path of add_route that stores one of them', floor=6)
